@@ -178,7 +178,7 @@ DrawOp(r, S) ==
                                        ELSE Pick(<<"demand", "sink", "exchange">>, d[8])]
     [] k \in {"RxnAddMetabolites", "RxnSubtractMetabolites"} ->
          base @@ [r |-> rx, d |-> DrawD(C, SubSeq(d, 8, 12)), combine |-> d[13] % 3 # 0, form |-> d[14] % 4]
-    [] k = "RxnIMul" -> base @@ [r |-> rx, k |-> Pick(<<2, -1, 3, -2, 7>>, d[8])]
+    [] k = "RxnIMul" -> base @@ [r |-> rx, k |-> Pick(<<2, -1, 3, -2, 7, 0>>, d[8])]
     [] k \in {"RxnIAdd", "RxnISub"} -> base @@ [r |-> rx, q |-> rx2]
     [] k = "SetLB" -> base @@ [r |-> rx, v |-> Pick(LoVals, d[8])]
     [] k = "SetUB" -> base @@ [r |-> rx, v |-> Pick(HiVals, d[8])]
@@ -194,7 +194,7 @@ DrawOp(r, S) ==
     [] k = "Query" -> base
     [] k = "Prune" -> [a |-> k, s |-> s, t |-> 3 - s, kind |-> Pick(<<"mets", "rxns">>, d[8])]
     [] k = "FixObjective" -> base
-    [] k = "RxnArith" -> base @@ [r |-> rx, q |-> rx2, kind |-> Pick(<<"copy", "add", "sub", "mul">>, d[8]), k |-> Pick(<<2, -1, 3, -2>>, d[9])]
+    [] k = "RxnArith" -> base @@ [r |-> rx, q |-> rx2, kind |-> Pick(<<"copy", "add", "sub", "mul">>, d[8]), k |-> Pick(<<2, -1, 3, -2, 0>>, d[9])]
     [] k = "ReAddDetached" -> base @@ [r |-> PickPresent(RxSeq, RxU \ C.rxns, d[3])]
     [] k = "DetachedRename" -> base @@ [r |-> PickPresent(RxSeq, RxU \ C.rxns, d[3]), new |-> PickPresent(RxSeq, RxU \ C.rxns, d[8])]
     [] k = "DetachedSetBounds" -> base @@ [r |-> PickPresent(RxSeq, RxU \ C.rxns, d[3]), lo |-> Pick(LoVals, d[8]), hi |-> Pick(HiVals, d[9])]
@@ -211,7 +211,8 @@ DrawOp(r, S) ==
     [] k = "RenameMetabolite" -> base @@ [met |-> mt, new |-> IF mt \in ExtMets THEN Pick(<<"m3", "m4">>, d[8]) ELSE Pick(<<"m1", "m2">>, d[8])]
     [] k = "SetObjective" ->
          base @@ [form |-> d[8] % 4,
-                  d |-> IF d[8] % 4 # 0 THEN [x \in RxU |-> IF x = rx THEN 1 ELSE 0]
+                  d |-> IF d[8] % 4 = 0 /\ d[12] % 6 = 0 THEN [x \in RxU |-> 0]      \* the empty dictionary
+                        ELSE IF d[8] % 4 # 0 THEN [x \in RxU |-> IF x = rx THEN 1 ELSE 0]
                         ELSE [x \in RxU |-> IF x = rx THEN Pick(<<1, 2, -1>>, d[9])
                                             ELSE IF x = rx2 /\ d[10] % 2 = 0 THEN Pick(<<1, -1, 2>>, d[11]) ELSE 0]]
     [] k = "SetObjCoef" -> base @@ [r |-> rx, v |-> Pick(<<0, 1, 2, -1>>, d[8])]
@@ -382,6 +383,7 @@ FullOps ==
   \cup {
         [a |-> "SetRule", s |-> 1, r |-> "r1", rule |-> Or2(G("g2"), G("g4")), form |-> 0],
         [a |-> "RxnIMul", s |-> 1, r |-> "r1", k |-> -1],
+        [a |-> "RxnIMul", s |-> 1, r |-> "r1", k |-> 0],
         [a |-> "RxnAddMetabolites", s |-> 1, r |-> "r1", d |-> D1("m2", 1), combine |-> TRUE, form |-> 0],
         [a |-> "RxnAddMetabolites", s |-> 1, r |-> "r1", d |-> D1("m1", 2), combine |-> FALSE, form |-> 1],
         [a |-> "RemoveReactions", s |-> 1, rs |-> <<"r1">>, orphans |-> TRUE, form |-> 0],
@@ -399,6 +401,7 @@ FullOps ==
         [a |-> "RemoveReactions", s |-> 1, rs |-> <<"r3", "r2">>, orphans |-> FALSE, form |-> 0],
         [a |-> "RemoveGenes", s |-> 1, gs |-> <<"g2", "g3">>, rr |-> TRUE, form |-> 0],
         [a |-> "SetObjective", s |-> 1, form |-> 0, d |-> [x \in RxU |-> IF x = "r2" THEN 1 ELSE 0]],
+        [a |-> "SetObjective", s |-> 1, form |-> 0, d |-> [x \in RxU |-> 0]],       \* model.objective = {}
         [a |-> "RxnAddMetabolites", s |-> 1, r |-> "r1", d |-> D1("m1", -2), combine |-> FALSE, form |-> 2],
         [a |-> "Repair", s |-> 1],
         [a |-> "BuildFromString", s |-> 1, r |-> "r1", d |-> [x \in MetU |-> IF x = "m1" THEN -2 ELSE IF x = "m2" THEN 1 ELSE 0], arrow |-> "both", spell |-> 1],
